@@ -32,6 +32,7 @@ type Engine struct {
 	typeCache   map[string]types.Type
 	msUnit      *Unit
 	keyInfos    map[string]keyInfo
+	tparams     map[string]types.Type // type parameter names of the function being verified
 }
 
 type implInfo struct {
@@ -180,6 +181,9 @@ func (e *Engine) resolveTypeQuiet(pkg *types.Package, text string) (types.Type, 
 		}
 		return nil, fmt.Sprintf("(Array %s Bool)", ks)
 	}
+	if t, ok := e.tparams[text]; ok {
+		return t, ""
+	}
 	if pkg == nil {
 		return nil, ""
 	}
@@ -197,7 +201,27 @@ func (e *Engine) resolveTypeQuiet(pkg *types.Package, text string) (types.Type, 
 }
 
 func (e *Engine) contractFor(f *ssa.Function) *Contract {
+	if len(f.TypeArgs()) > 0 {
+		// a contract written for one instantiation, e.g. OneOfSchema[int64].getTypedDiscriminator
+		if ct, ok := e.contracts.funcs[instKey(f)]; ok {
+			return ct
+		}
+	}
 	return e.contracts.funcs[fnKey(f)]
+}
+
+func instKey(f *ssa.Function) string {
+	k := fnKey(f)
+	var as []string
+	for _, a := range f.TypeArgs() {
+		as = append(as, types.TypeString(a, func(p *types.Package) string { return p.Name() }))
+	}
+	// pkg.Type.Method -> pkg.Type[args].Method ; pkg.Func -> pkg.Func[args]
+	parts := strings.Split(k, ".")
+	if len(parts) == 3 {
+		return parts[0] + "." + parts[1] + "[" + strings.Join(as, ",") + "]." + parts[2]
+	}
+	return k + "[" + strings.Join(as, ",") + "]"
 }
 
 // interface contract for method m of interface type t (looked up by the named interface and the
@@ -528,7 +552,7 @@ func (e *Engine) computeModsets() {
 				clean := cleanCallee[f][c]
 				for k, op := range sub.keys {
 					if clean {
-						op = false
+						continue
 					}
 					old, had := ms.keys[k]
 					if !had || (op && !old) {
@@ -635,12 +659,10 @@ func (e *Engine) callModset(u *Unit, c *ssa.CallCommon) *modset {
 	return &modset{keys: map[string]bool{}, ghosts: map[string]bool{"inv": true}}
 }
 
+// a callee with a proved `assigns nothing` frame only allocates: allocation is modelled as revealing
+// so-far unconstrained cells of the same heap, so no heap version changes at all
 func closedCopy(ms *modset) *modset {
-	n := &modset{keys: map[string]bool{}, ghosts: ms.ghosts}
-	for k := range ms.keys {
-		n.keys[k] = false
-	}
-	return n
+	return &modset{keys: map[string]bool{}, ghosts: ms.ghosts}
 }
 
 func (e *Engine) invokeModset(u *Unit, c *ssa.CallCommon) *modset {
@@ -653,7 +675,7 @@ func (e *Engine) invokeModset(u *Unit, c *ssa.CallCommon) *modset {
 		sub := e.modsetOf(u, impl.fn)
 		for k, op := range sub.keys {
 			if ct != nil && ct.HasAssigns && len(ct.Assigns) == 0 {
-				op = false
+				continue
 			}
 			addKey(ms, k, op)
 		}
@@ -676,7 +698,7 @@ type VerifyOpts struct {
 func (e *Engine) newUnit(fn *ssa.Function) *Unit {
 	u := &Unit{eng: e, w: newWorld(), fun: fn, name: unitName(fn), oblCount: map[string]int{}, heapSorts: map[string]string{}, heapElem: map[string]types.Type{},
 		hver: map[string]*heapVersion{}, frameDone: map[string]bool{}, ghostSort: map[string]string{}, notes: map[string]bool{}, inlined: map[string]bool{},
-		usedSpecs: map[string]bool{}, usedStd: map[string]bool{}, usedPure: map[string]bool{}, implIfaces: map[string]types.Type{}, assume: map[string]bool{}, usedContracts: map[string]bool{}, sliceConstLen: map[string]int{}, usedInvs: map[string]bool{}, hparents: map[string][]string{}}
+		usedSpecs: map[string]bool{}, usedStd: map[string]bool{}, usedPure: map[string]bool{}, implIfaces: map[string]types.Type{}, assume: map[string]bool{}, usedContracts: map[string]bool{}, sliceConstLen: map[string]int{}, usedInvs: map[string]bool{}, hparents: map[string][]string{}, qsorts: map[string]string{}, ospecDone: map[string]bool{}}
 	return u
 }
 
@@ -712,6 +734,12 @@ func (e *Engine) verify(fn *ssa.Function, opts VerifyOpts) (u *Unit) {
 			}
 		}
 	}()
+	e.tparams = map[string]types.Type{}
+	if tps := fn.TypeParams(); tps != nil {
+		for i := 0; i < tps.Len() && i < len(fn.TypeArgs()); i++ {
+			e.tparams[tps.At(i).Obj().Name()] = fn.TypeArgs()[i]
+		}
+	}
 	ct := e.contractFor(fn)
 	ifcts := e.ifaceContractsFor(fn)
 	if ct != nil {
@@ -932,40 +960,67 @@ func (fr *Frame) applyContract(ct *Contract, callee *ssa.Function, recv *Val, ar
 		}
 		ms = u.eng.ifaceModset(u, ct)
 	}
-	var exceptRefs []string
 	if ct.HasAssigns {
+		// precise frame: only the listed locations change (allocation needs no heap versioning)
 		for _, a := range ct.Assigns {
-			var base *Expr
 			switch a.op {
-			case "field", "un", "index":
-				base = a.args[0]
+			case "field":
+				bv := fr.eval(a.args[0], env, st, st)
+				pt, ok := bv.Ty.Underlying().(*types.Pointer)
+				if !ok {
+					evalFail("assigns: %q: base is not a pointer", a.src)
+				}
+				obj, path, _ := types.LookupFieldOrMethod(pt.Elem(), true, u.eng.anyPkg(pt.Elem()), a.name)
+				fv, ok := obj.(*types.Var)
+				if !ok || len(path) != 1 {
+					evalFail("assigns: %q: unsupported field path", a.src)
+				}
+				ad := u.addrOfPtr(bv)
+				nad := *ad
+				nad.Sels = []sel{{field: path[0], cont: pt.Elem()}}
+				nv := u.w.newConst("assigned:"+a.name, u.w.sortOf(fv.Type()))
+				for _, f := range u.wfFacts(st, nv, fv.Type(), 0) {
+					u.fact(f)
+				}
+				if u.checkFrame {
+					fr.frameCheckRef(st, ad.Ref, "assigns of "+shortKey(key), pos)
+				}
+				u.storeAddr(st, &nad, nv)
+			case "un":
+				bv := fr.eval(a.args[0], env, st, st)
+				pt, ok := bv.Ty.Underlying().(*types.Pointer)
+				if !ok {
+					evalFail("assigns: %q: not a pointer", a.src)
+				}
+				ad := u.addrOfPtr(bv)
+				nv := u.w.newConst("assigned", u.w.sortOf(pt.Elem()))
+				for _, f := range u.wfFacts(st, nv, pt.Elem(), 0) {
+					u.fact(f)
+				}
+				if u.checkFrame {
+					fr.frameCheckRef(st, ad.Ref, "assigns of "+shortKey(key), pos)
+				}
+				u.storeAddr(st, ad, nv)
 			default:
 				evalFail("assigns: unsupported location %q", a.src)
 			}
-			exceptRefs = append(exceptRefs, fr.refOf(fr.eval(base, env, st, st)))
 		}
-	}
-	var ks []string
-	for k := range ms.keys {
-		ks = append(ks, k)
-	}
-	sort.Strings(ks)
-	for _, k := range ks {
-		u.ensureKey(k)
-		if _, ok := u.heapSorts[k]; !ok {
-			continue
+	} else {
+		var ks []string
+		for k := range ms.keys {
+			ks = append(ks, k)
 		}
-		open := ms.keys[k]
-		if ct.HasAssigns {
-			open = false
-		} else if open && u.checkFrame {
-			u.oblige(fr, st, "frame", "call", "false", pos, "callee "+key+" may write pre-existing memory ("+k+") and its contract has no assigns clause")
-		}
-		u.havocHeap(st, k, open, exceptRefs)
-	}
-	if u.checkFrame && len(exceptRefs) > 0 {
-		for _, r := range exceptRefs {
-			fr.frameCheckRef(st, r, "assigns of "+shortKey(key), pos)
+		sort.Strings(ks)
+		for _, k := range ks {
+			u.ensureKey(k)
+			if _, ok := u.heapSorts[k]; !ok {
+				continue
+			}
+			open := ms.keys[k]
+			if open && u.checkFrame {
+				u.oblige(fr, st, "frame", "call", "false", pos, "callee "+key+" may write pre-existing memory ("+k+") and its contract has no assigns clause")
+			}
+			u.havocHeap(st, k, open, nil)
 		}
 	}
 	for g := range ms.ghosts {
